@@ -627,6 +627,12 @@ def run(repo, chk, tier):
     from ..cacheown import check_persistent_state
 
     check_persistent_state(repo, chk, ["tf_pwa/model/"])
+    from ..cacheown import check_mutable_defaults
+
+    check_mutable_defaults(repo, chk, ["tf_pwa/model/"])
+    from ..cacheown import check_iteration_order_agreement
+
+    check_iteration_order_agreement(repo, chk, ["tf_pwa/model/"])
     from .c07 import check_gauss_constr
 
     check_gauss_constr(repo, chk, parts=("value",))
